@@ -381,7 +381,56 @@ def cases_packet(rng, n):
     return out
 
 
-GROUPS = {"packet": cases_packet, "loops": cases_loops, "keys": cases_keys, "store": cases_store, "txn": cases_txn, "fsinfo": cases_fsinfo, "message": cases_message, "device": cases_device}
+def cases_stream(rng, n):
+    """the effect-parameterised forms of _okay / _clse / _read_until / _open and of the loop of _read_until_close (both twins), and _get_transport_timeout_s"""
+    import ast
+    import importlib
+    from adb_shell import constants
+    from adb_shell.hidden_helpers import _AdbTransactionInfo
+    out = []
+    units = dict(pytrans.build_units(common.REPO))
+    for fname, cls, modname in (("adb_device.py", "AdbDevice", "adb_shell.adb_device"), ("adb_device_async.py", "AdbDeviceAsync", "adb_shell.adb_device_async")):
+        u = units[fname]
+        mod = importlib.import_module(modname)
+        for lean_name, fn in sorted(u.fns.items()):
+            base = lean_name[len(cls) + 1:]
+            if not lean_name.startswith(cls + "_") or not any(base.startswith(b) for b in ("okay_", "clse_", "read_until_", "open_fn", "open_eff", "get_transport_timeout_s")):
+                continue
+            if any(isinstance(st, ast.Global) for st in fn["body"]):
+                continue
+            body = copy.deepcopy(fn["body"])
+            # the translated unit calls self._get_transport_timeout_s through the class; the bare object used here gets the real method
+            code = compile(ast.fix_missing_locations(ast.Module(body=[ast.FunctionDef(
+                name="f", args=ast.arguments(posonlyargs=[], args=[ast.arg(arg=p_) for p_ in fn["params"]], kwonlyargs=[], kw_defaults=[], defaults=[]),
+                body=body, decorator_list=[])], type_ignores=[])), "<%s>" % lean_name, "exec")
+            ns = dict(vars(mod))
+            exec(code, ns)
+            klass = getattr(mod, cls)
+            for _ in range(max(6, n // 8)):
+                dev = type(cls, (), {"_get_transport_timeout_s": klass._get_transport_timeout_s})()
+                dev._local_id = rng.choice([0, 5, 2 ** 32 - 2, 2 ** 32 - 1])
+                dev._default_transport_timeout_s = rng.choice([None, 10])
+                lid, rid = rng.choice([1, 7, 2 ** 32 - 1]), rng.choice([1, 9, 0])
+                info = _AdbTransactionInfo(lid, rid, 1, 2, rng.choice([None, 3]))
+                cmdb = rng.choice([constants.WRTE, constants.CLSE, constants.OKAY])
+                payload = rng.choice([b"", b"abc", b"\xff\x00"])
+                vals = {"self": dev, "adb_info": info, "destination": rng.choice([b"shell:ls", b"sync:", b""]), "transport_timeout_s": rng.choice([None, 4]),
+                        "read_timeout_s": rng.choice([None, 5, 10]), "timeout_s": rng.choice([None, 7]), "expected_cmds": [constants.CLSE, constants.WRTE],
+                        "cmd": None, "data": None, "msg": None, "start": 100, "now": 100 + rng.choice([0, 2, 4, 9]), "eff0": None, "eff1": None, "eff2": None}
+                if base.startswith("read_until_close"):
+                    vals["eff0"] = (cmdb, payload)
+                elif base.startswith("read_until"):
+                    vals["eff0"] = (cmdb, rid, lid, payload)
+                elif base.startswith("open"):
+                    vals["eff1"] = (constants.OKAY, 77, lid, b"")
+                args = [vals[p_] for p_ in fn["params"]]
+                largs = " ".join(lean(a) for a in args)
+                exp = outcome(ns["f"], *[copy.deepcopy(a) for a in args])
+                out.append(("showM (%s %s)" % (lean_name, largs), exp, "%s(%s)" % (lean_name, ", ".join("%s=%s" % (p_, show(vals[p_])[:28]) for p_ in fn["params"]))))
+    return out
+
+
+GROUPS = {"stream": cases_stream, "packet": cases_packet, "loops": cases_loops, "keys": cases_keys, "store": cases_store, "txn": cases_txn, "fsinfo": cases_fsinfo, "message": cases_message, "device": cases_device}
 
 
 def run_cases(cases):
